@@ -59,7 +59,7 @@ LAYERS = {
 
 def bounds(tier):
     return dict(cost_bound_per_class_and_key_layer={"%s/%s" % k: v for k, v in LAYERS[tier].items()}, keys={k: v for k, v in KEYSETS.items()},
-                coef_spellings=[c[0] for c in COEFS], params=[p[0] for p in PARAMS], terms_per_side=3, system_lines=3, system_pool=len(SYS_POOL), interleavings=INTERLEAVE)
+                decimal_coefficients=DEC, coef_spellings=[c[0] for c in COEFS], params=[p[0] for p in PARAMS], terms_per_side=3, system_lines=3, system_pool=len(SYS_POOL), interleavings=INTERLEAVE)
 
 
 # --------------------------------------------------------------------------------------------- grammar
@@ -340,8 +340,67 @@ def check_system(res, sel, how):
 
 
 # --------------------------------------------------------------------------------------------- chunks
+# --------------------------------------------------------------------------------------------- layer DC: decimal coefficients
+DEC = ["0.5", "0.25", "0.125", "0.75", "1.5", "2.5", "1.25"]
+DC_SHAPES = [  # (reactants, products) with one marked slot "@" taking the decimal coefficient
+    (["@ O2", "H2"], ["H2O"]), (["H2", "@ O2"], ["H2O"]), (["H2O2"], ["@ O2", "H2O"]), (["H2O2"], ["H2O", "@ O2"]),
+    (["@ (NH4)2SO4(s)", "Ba+2"], ["BaSO4(s)", "2 NH4+"]), (["@ A", "(@ A)"], ["B"]),
+]
+
+
+def check_decimal(res, cls_name, shape, dec, ptxt):
+    """lines with a decimal coefficient (below and above one), read with the all-integral check off: the coefficient is
+    read as written, printed (left out only when it is exactly 1) and read back equal"""
+    import chempy
+
+    cls = getattr(chempy, cls_name)
+    arrow = "->" if cls_name == "Reaction" else "="
+    L, R = DC_SHAPES[shape]
+    text = "%s %s %s%s" % (" + ".join(L).replace("@", dec), arrow, " + ".join(R).replace("@", dec), ptxt)
+    case = dict(kind="decimal", cls=cls_name, shape=shape, dec=dec, ptxt=ptxt)
+    checks = [c for c in cls.default_checks if c != "all_integral"]
+    res.states += 1
+    res.transitions += 2
+    res.nontrivial += 1
+    res.evaluations += 1
+
+    def model(side):
+        act, ina = {}, {}
+        for t in side:
+            d = act
+            if t.startswith("("):
+                t, d = t[1:-1], ina
+            c, _, k = t.rpartition(" ")
+            c = float(dec) if c == "@" else (int(c) if c else 1)
+            d[k] = d.get(k, 0) + c
+        return act, ina
+
+    ra, ri = model(L)
+    pa, pi = model(R)
+    exp = dict(reac=ra, prod=pa, inact_reac=ri, inact_prod=pi)
+    try:
+        r = cls.from_string(text, checks=checks)
+        got = dict(reac=dict(r.reac), prod=dict(r.prod), inact_reac=dict(r.inact_reac), inact_prod=dict(r.inact_prod))
+    except Exception as e:
+        r, got = None, "EXC %s" % type(e).__name__
+    if got != exp:
+        res.outcomes["decimal-misread"] += 1
+        res.violation("C12|%s.from_string|decimal-coefficient|misread" % cls_name, "%s.from_string(%r, checks without all_integral) read %r, written %r" % (cls_name, text, got, exp), case, got, exp)
+        return
+    res.evaluations += 1
+    try:
+        printed = str(r)
+        back = cls.from_string(printed, checks=checks)
+        same = bool(back == r) and dict(back.reac) == ra and dict(back.prod) == pa and dict(back.inact_reac) == ri
+    except Exception as e:
+        printed, same = locals().get("printed"), "EXC %s" % type(e).__name__
+    res.outcomes["decimal-roundtrip-ok" if same is True else "decimal-roundtrip-WRONG"] += 1
+    if same is not True:
+        res.violation("C12|%s|str-roundtrip|decimal-coefficient" % cls_name, "%r prints as %r, which does not parse back to an equal %s (%r)" % (text, printed, cls_name, same), case, printed, text)
+
+
 def chunks(tier):
-    out = []
+    out = [("DC", cls) for cls in ("Reaction", "Equilibrium")]
     for (cls, layer), N in sorted(LAYERS[tier].items(), key=lambda kv: (kv[1], kv[0])):
         keys = KEYSETS[layer]
         for lc in range(1, N):
@@ -354,6 +413,13 @@ def chunks(tier):
 
 def run_chunk(chunk, tier):
     res = Result()
+    if chunk[0] == "DC":
+        for shape in range(len(DC_SHAPES)):
+            for dec in DEC:
+                for ptxt in ("", "; 4.2e-3"):
+                    check_decimal(res, chunk[1], shape, dec, ptxt)
+        res.sample(dict(layer="DC", cls=chunk[1], coefficients=DEC, example="H2O2 -> 0.5 O2 + H2O; 4.2e-3"))
+        return res
     if chunk[0] == "Y":
         first = chunk[1]
         others = [i for i in range(len(SYS_POOL)) if i != first]
@@ -385,7 +451,9 @@ def run_chunk(chunk, tier):
 
 def replay(case):
     res = Result()
-    if case.get("kind") == "named-system":
+    if case.get("kind") == "decimal":
+        check_decimal(res, case["cls"], case["shape"], case["dec"], case["ptxt"])
+    elif case.get("kind") == "named-system":
         check_named_system(res, tuple(case["sel"]))
     elif case.get("kind") == "system":
         check_system(res, tuple(case["sel"]), case["how"])
